@@ -77,7 +77,8 @@ def collect(only):
         for line in json.load(open(kf)).get('fixed', []):
             m = re.match(r'fixed: property=(C\d+) ([0-9a-f]{7,}) ', line)
             if m:
-                items.append(dict(id=f'revert/{m.group(2)}', kind='revert', commit=m.group(2), checks=[m.group(1)]))
+                also = re.findall(r'\[revert-with ([0-9a-f]{7,})', line)
+                items.append(dict(id=f'revert/{m.group(2)}', kind='revert', commit=m.group(2), also=also, checks=[m.group(1)]))
     if only:
         items = [i for i in items if only in i['id']]
     return items
@@ -89,10 +90,11 @@ def apply(item, wt):
         if p.returncode:
             raise RuntimeError(f"patch does not apply: {p.stderr[:300]}")
     elif item['kind'] == 'revert':
-        d = sh(['git', '-C', wt, 'show', item['commit']])
-        p = subprocess.run(['git', '-C', wt, 'apply', '-R'], input=d.stdout, capture_output=True, text=True)
-        if p.returncode:
-            raise RuntimeError(f"fix commit does not reverse-apply: {p.stderr[:300]}")
+        for commit in list(item.get('also') or []) + [item['commit']]:
+            d = sh(['git', '-C', wt, 'show', commit])
+            p = subprocess.run(['git', '-C', wt, 'apply', '-R'], input=d.stdout, capture_output=True, text=True)
+            if p.returncode:
+                raise RuntimeError(f"fix commit {commit} does not reverse-apply: {p.stderr[:300]}")
     else:
         path = os.path.join(wt, item['file'])
         s = open(path).read()
